@@ -84,7 +84,11 @@ class Nullable:
                 self.at_return(dict(st), where)
         return self.problems
 
+    require_report = True
+
     def at_return(self, st, where):
+        if not self.require_report:
+            return
         for key, (status, site, reported) in st.items():
             if status == NULL and not reported:
                 self.problem(site, 'path on which the result is NULL returns at %s without reporting (no %s)' % (where, '/'.join(sorted(self.reporters))))
@@ -392,9 +396,10 @@ class Nullable:
         return [('next', s, where) for s in res]
 
 
-def check_function(tu, fn_name, sources, reporters, on_null_flags=()):
+def check_function(tu, fn_name, sources, reporters, on_null_flags=(), require_report=True):
     fn = tu.functions[fn_name]
     a = Nullable(tu, fn, sources, reporters, on_null_flags)
+    a.require_report = require_report
     problems = a.run()
     return a.sites, problems
 
